@@ -14,6 +14,7 @@ import (
 	"os"
 	"os/exec"
 	"runtime"
+	"sort"
 	"strconv"
 	"strings"
 	"sync"
@@ -73,11 +74,8 @@ func allSeries(thorough bool) []seriesT {
 			ns := unt
 			if v == "asciinum" && m == "strict" {
 				// quadratic allocation (numStr += string(ch)): 5.3 GB at n=10^5; the 10^6 point would
-				// allocate 530 GB and outlast any horizon, so the series stops earlier
+				// allocate 530 GB and outlast any horizon, so the series stops at 10^5 in both tiers
 				ns = unt[:3]
-				if thorough {
-					ns = append(append([]string{}, ns...), "300000")
-				}
 			}
 			ss = append(ss, seriesT{"unterminated", v, m, ns, true})
 		}
@@ -507,18 +505,54 @@ func runSeries(c *vfw.Ctx, s seriesT, growthLog *[]map[string]any, mu *sync.Mute
 	}
 }
 
+// seriesWeight is a rough relative cost (seconds) used only to balance the lanes.
+func seriesWeight(s seriesT) float64 {
+	w := 0.06 * float64(len(s.Ns))
+	switch {
+	case s.Family == "nesting":
+		w += 11 + 3*float64(len(s.Ns)-7)
+	case s.Family == "unterminated" && s.Variant == "asciinum" && s.Mode == "strict":
+		w += 4
+	case s.Family == "wide" && (s.Variant == "msgs" || s.Variant == "list"):
+		w += 2.5
+	case s.Family == "messages":
+		w += 0.6
+		if len(s.Ns) > 3 {
+			w += 5
+		}
+	case s.Family == "sizehint" && !strings.Contains(s.Variant, "/"):
+		w += 0.8
+	}
+	return w
+}
+
 // runFamilies runs this shard's share of the series. At most 4 workers exist at any time
-// over all shards: series i belongs to shard i mod min(4, shards), and a shard runs its
-// series one point at a time (with fewer than 4 shards, 4/shards at a time).
+// over all shards: the series are spread over min(4, shards) lanes (= the first shards), and a
+// shard runs its series one point at a time (with fewer than 4 shards, 4/shards at a time).
 func runFamilies(c *vfw.Ctx, cc *colConv) {
 	lanes := min(4, max(c.Shards, 1))
 	if c.Shard >= lanes {
 		return
 	}
+	// deterministic longest-first assignment of series to lanes (every shard computes the same)
+	all := allSeries(c.Thorough())
+	order := make([]int, len(all))
+	for i := range order {
+		order[i] = i
+	}
+	sort.SliceStable(order, func(a, b int) bool { return seriesWeight(all[order[a]]) > seriesWeight(all[order[b]]) })
+	load := make([]float64, lanes)
 	var mine []seriesT
-	for i, s := range allSeries(c.Thorough()) {
-		if i%lanes == c.Shard {
-			mine = append(mine, s)
+	for _, i := range order {
+		best := 0
+		for l := 1; l < lanes; l++ {
+			if load[l] < load[best] {
+				best = l
+			}
+		}
+		load[best] += seriesWeight(all[i])
+		if best == c.Shard {
+			mine = append(mine, all[i])
 		}
 	}
 	par := max(1, 4/lanes)
